@@ -37,6 +37,9 @@ def runContainers (lines : List String) : List String :=
         let st := applyOp st (.move (hnum h) (hnum g))
         go st rest (vecLine (hnum g) (st.spec.get (hnum g)) :: vecLine (hnum h) (st.spec.get (hnum h)) :: acc)
       | ["vpush", h, x] => let st := applyOp st (.push (hnum h) (nat! x)); go st rest (vecLine (hnum h) (st.spec.get (hnum h)) :: acc)
+      | ["vspan", h] =>
+        let xs := st.spec.get (hnum h)
+        go st rest (s!"span {xs.length} sum {xs.foldl (· + ·) 0}" :: acc)
       | ["vpushmove", h, i] =>
         let x := (st.spec.get (hnum h)).getD (nat! i) 0
         let st := applyOp st (.push (hnum h) x); go st rest (vecLine (hnum h) (st.spec.get (hnum h)) :: acc)
